@@ -2,7 +2,9 @@ package rules
 
 import (
 	"fmt"
+	"go/ast"
 	"go/constant"
+	"go/token"
 	"sort"
 	"strings"
 
@@ -681,7 +683,32 @@ func sliceLitElems(v ssa.Value) []ssa.Value {
 	return out
 }
 
-func controlsC02(p *engine.Prog) []Control { return nil }
+func controlsC02(p *engine.Prog) []Control {
+	// the names the shipped labels are filtered by are not "__param_"+key any more -> R2.8
+	c1 := astControl(p, pkgDisc, "param label names lower-cased before they are searched", "C02/R2.8", func(n ast.Node, src []byte, off func(token.Pos) int) (int, int, string, bool) {
+		ap, ok := n.(*ast.CallExpr)
+		if !ok || len(ap.Args) != 2 {
+			return 0, 0, "", false
+		}
+		if f, ok := ap.Fun.(*ast.Ident); !ok || f.Name != "append" {
+			return 0, 0, "", false
+		}
+		be, ok := ap.Args[1].(*ast.BinaryExpr)
+		if !ok || be.Op != token.ADD {
+			return 0, 0, "", false
+		}
+		sel, ok := be.X.(*ast.SelectorExpr)
+		if !ok || sel.Sel.Name != "ParamLabelPrefix" {
+			return 0, 0, "", false
+		}
+		id, ok := be.Y.(*ast.Ident)
+		if !ok || id.Name != "k" {
+			return 0, 0, "", false
+		}
+		return off(id.Pos()), off(id.End()), "strings.ToLower(k)", true
+	})
+	return []Control{c1}
+}
 
 // constTableElems: v is the element variable of a range (index loop) over a package-level []string that is
 // initialised once with constants and never written again; it returns the constants.
